@@ -147,6 +147,15 @@ impl PathParser {
         }
     }
 
+    /// A moveto starts a new subpath: a later closepath returns to this point.
+    ///
+    /// "If a moveto is followed by multiple pairs of coordinates, the subsequent
+    /// pairs are treated as implicit lineto commands."
+    fn begin_subpath(&mut self, implicit_lineto: char) {
+        self.start_pos = self.position;
+        self.command = Some(implicit_lineto);
+    }
+
     fn get_bbox(&self) -> Option<BoundingBox> {
         if self.start_pos.is_some() {
             Some(BoundingBox::new(
@@ -167,12 +176,24 @@ impl PathParser {
         }
 
         match self.command.expect("Command should be already set") {
-            'M' | 'L' | 'T' => {
+            'M' => {
+                // "(x y)+"
+                let xy = self.tokens.read_coord()?;
+                self.update_position(xy);
+                self.begin_subpath('L');
+            }
+            'm' => {
+                let (dx, dy) = self.tokens.read_coord()?;
+                let (cpx, cpy) = self.position.unwrap_or((0., 0.));
+                self.update_position((cpx + dx, cpy + dy));
+                self.begin_subpath('l');
+            }
+            'L' | 'T' => {
                 // "(x y)+"
                 let xy = self.tokens.read_coord()?;
                 self.update_position(xy);
             }
-            'm' | 'l' | 't' => {
+            'l' | 't' => {
                 let (dx, dy) = self.tokens.read_coord()?;
                 let (cpx, cpy) = self.position.unwrap_or((0., 0.));
                 self.update_position((cpx + dx, cpy + dy));
